@@ -638,6 +638,10 @@ func RunPubSub(w *bufio.Writer, seed int64, tier string, replay string) error {
 		{one(1, "PSUBSCRIBE", "a*"), one(2, "SUBSCRIBE", "a*"), one(0, "PUBLISH", "ab", "m1"), one(0, "PUBLISH", "a*", "m2"), one(2, "UNSUBSCRIBE", "a*"), one(0, "PUBSUB", "NUMSUB", "a*")},
 		// PUNSUBSCRIBE and plain subscriptions whose names match
 		{one(1, "SUBSCRIBE", "ab", "b"), one(1, "PSUBSCRIBE", "a?"), one(1, "PUNSUBSCRIBE", "a*"), one(0, "PUBLISH", "ab", "m1"), one(1, "PUNSUBSCRIBE", "*")},
+		// a pattern that does not compile (regression of a repaired defect: glob.MustCompile used to panic): PSUBSCRIBE is refused
+		// as a whole, PUNSUBSCRIBE treats it as a pattern matching nothing, PUBSUB CHANNELS answers an error
+		{one(1, "SUBSCRIBE", "["), one(2, "PSUBSCRIBE", "a*", "[", "b*"), one(0, "PUBSUB", "NUMPAT"), one(2, "PSUBSCRIBE", "a*", "b*"), one(0, "PUBLISH", "[", "m1"), one(0, "PUBLISH", "ab", "m2"),
+			one(0, "PUBSUB", "CHANNELS", "["), one(0, "PUBSUB", "CHANNELS", "[b-a]"), one(1, "PUNSUBSCRIBE", "[]"), one(2, "PUNSUBSCRIBE", "[", "a*"), one(0, "PUBSUB", "NUMPAT"), one(0, "PUBSUB", "CHANNELS")},
 		// bursts and forced schedules
 		{one(1, "SUBSCRIBE", "a"), one(3, "SUBSCRIBE", "a"), blk("burst", pc(0, "PUBLISH", "a", "m1"), pc(0, "PUBLISH", "a", "m2"), pc(0, "PUBLISH", "a", "m3"), pc(2, "PUBLISH", "a", "m4")),
 			blk("heldrev", pc(0, "PUBLISH", "a", "m5"), pc(0, "PUBLISH", "a", "m6")),
